@@ -77,7 +77,17 @@ func sendAllLeaves(p *gen.Program) []func(gen.Source) {
 }
 
 func c17Edit(o *mc.Explorer, p *gen.Program) (string, bool) {
-	k := o.Choose(8)
+	k := o.Choose(9)
+	if k == 8 {
+		// a builtin that only exists as a variable origin, called as a statement with arguments that fit it
+		calls := []func() gen.Stmt{
+			func() gen.Stmt { return &gen.Call{Name: "balance", Args: []gen.Expr{gen.Acct("a"), gen.Asset("USD")}} },
+			func() gen.Stmt { return &gen.Call{Name: "meta", Args: []gen.Expr{gen.Acct("a"), gen.Str("k")}} },
+			func() gen.Stmt { return &gen.Call{Name: "overdraft", Args: []gen.Expr{gen.Acct("a"), gen.Asset("USD")}} },
+		}
+		p.Stmts = append(p.Stmts, calls[o.Choose(len(calls))]())
+		return "origin-builtin-as-statement", true
+	}
 	if k == 7 {
 		// an origin that names a variable of the block (itself, an earlier or a later one)
 		if len(p.Vars) == 0 {
@@ -98,7 +108,23 @@ func c17Edit(o *mc.Explorer, p *gen.Program) (string, bool) {
 			return "", false
 		}
 		set := leaves[o.Choose(len(leaves))]
-		switch o.Choose(3) {
+		switch o.Choose(4) {
+		case 3:
+			// the unbounded overdraft sits on an account VARIABLE
+			name := ""
+			for _, d := range p.Vars {
+				if d.Type.Name == "account" && d.Origin == nil {
+					name = d.Name.Name
+					break
+				}
+			}
+			if name == "" {
+				name = "acd"
+				p.Vars = append(p.Vars, &gen.VarDecl{Type: &gen.TypeName{Name: "account"}, Name: gen.V(name)})
+				p.HasVars = true
+			}
+			set(&gen.SrcOverdraft{Addr: gen.V(name)})
+			return "sendall-unbounded-variable", true
 		case 0:
 			set(&gen.SrcAccount{E: gen.Acct("world")})
 			return "sendall-world", true
